@@ -280,9 +280,12 @@ def process_state(hostile):
         np.seterr(divide="raise", over="raise", invalid="raise", under="ignore")  # (underflow of denormal inputs is not an error anywhere)
         warnings.filterwarnings("error", category=RuntimeWarning)
         decimal.getcontext().prec = 3
+        # an application (a notebook) that has set numpy's print options: arrays longer than 5 items are summarised, explicit signs, short lines
+        np.set_printoptions(threshold=5, edgeitems=1, linewidth=20, sign="+", precision=2, floatmode="fixed", suppress=True)
     else:
         np.seterr(divide="warn", over="warn", under="ignore", invalid="warn")
         decimal.getcontext().prec = 28
+        np.set_printoptions(threshold=1000, edgeitems=3, linewidth=75, sign="-", precision=8, floatmode="maxprec", suppress=False)
 
 
 def _run_hyp(leg, stats, known, tier, seed, shard, nshards, n):
@@ -646,7 +649,7 @@ def build_evidence(mod, per_leg, tier, seed, wall, nviol, known_info):
         "exhaustive_legs": [l.name for l in mod.LEGS if l.exhaustive],
         "legs": legs,
         "known_findings": known_info,
-        "process_state": "about half of the cases (pseudo-randomly) run with numpy trapping divide/overflow/invalid, RuntimeWarning as an error and a 3-digit decimal context; the others with the defaults",
+        "process_state": "about half of the cases (pseudo-randomly) run with numpy trapping divide/overflow/invalid, RuntimeWarning as an error, a 3-digit decimal context and non-default numpy print options (threshold 5, explicit signs); the others with the defaults",
         "tree": SRC,
     }
     extra = getattr(mod, "EXTRA_COVERAGE", None)
@@ -682,7 +685,7 @@ def run_replay(modname, path):
     for hostile in (False, True):  # a stored case is replayed under both ambient process states
         problem = _run_pinned(leg, body["case"], hostile)
         if problem is not None:
-            problem = "[process state: %s] %s" % ("numpy traps / RuntimeWarning=error / decimal prec 3" if hostile else "defaults", problem)
+            problem = "[process state: %s] %s" % ("numpy traps / RuntimeWarning=error / decimal prec 3 / numpy print options" if hostile else "defaults", problem)
             break
     process_state(False)
     rc = body.get("recipe")
